@@ -84,7 +84,7 @@ def type_members(l12=(), names=None):
             continue
         sl = X.function(src, name, rx)
         if name in ("type_t::is_constant", "type_t::is_mutable"):
-            lower_all_of(sl)
+            lower_all_of(sl, required="std::all_of" in sl.text)  # must fire whenever the construct is present
         if name == "type_t::is":
             sl.sub("L13:local-using-namespace", r"^\s*using namespace Constants;\n", "", required=True)
             sl.sub("L15:const-auto->kind_t", r"const auto k = get_kind\(\);", "const kind_t k = get_kind();", required=True)
